@@ -5,8 +5,10 @@ import Revm.Spec.OpFees
 transactions through the Optimism handler), property C33. Formats: see `harness/src/c33.rs`.
 
 `optx` lines carry a `| spec=` column whenever the transaction lies in the domain of the closed-form fee
-equations `Spec.OpFees.expected` (the hypotheses of `Props.C33.op_fee_conservation` /
-`deposit_mints_exactly`, decided by `Spec.OpFees.inDomain`); there the check is three-way. -/
+equations `Spec.OpFees.expected?` (validated regular transactions whose credits fit, deposits with gas price 0
+outside finding F2; decided by `Spec.OpFees.inDomain*`); there the check is three-way
+implementation = model = closed form. (The theorems of `Props/C33.lean` prove the credits and the conservation
+identity of the model; equality of the whole model reply with the closed form is checked differentially.) -/
 namespace Driver.OpFees
 open Revm Revm.Hex Revm.Model.OpFees
 
@@ -147,7 +149,7 @@ def parseTx (t : List String) : Option Parsed :=
 
 def errName : Err → String
   | .prio => "prio" | .basefee => "basefee" | .systx => "systx" | .intrinsic => "intrinsic" | .floor => "floor"
-  | .nonce => "nonce" | .custom => "custom" | .overflow => "overflow" | .funds => "funds"
+  | .nonce => "nonce" | .nonceOverflow => "nonceoverflow" | .custom => "custom" | .overflow => "overflow" | .funds => "funds"
 
 def kindName : Kind → String
   | .success => "success" | .revert => "revert" | .halt => "halt" | .failedDeposit => "faileddeposit"
